@@ -219,7 +219,6 @@ def check_run_ocr(case, ctx):
     with torch.no_grad(), contextlib.redirect_stdout(io.StringIO()), ctx.time_limit(120):
         for name in hist:
             imgs = ro_images(name)
-            keep = imgs.copy()
             dec, logits = eng.run_ocr(imgs)
         fresh = make_engine(copy.deepcopy(pristine(spec)))
         dec0, logits0 = fresh.run_ocr(ro_images(hist[-1]))
@@ -227,9 +226,6 @@ def check_run_ocr(case, ctx):
     ctx.executed(len(hist) + 1 + len(dec0))
     ctx.state((tuple(spec), 'run_ocr', tuple(hist)))
     desc = f'model {tuple(spec)}, run_ocr on batches {[(n, RO_BATCHES[n]) for n in hist]} (width px, line seeds) in turn on one engine'
-    if not np.array_equal(imgs, keep):
-        ctx.violation('independent-of-earlier-batches', f'{K}/modifies-its-input', f'{desc}: the image batch passed in was modified')
-        return
     n = min(logits.shape[1], logits0.shape[1])
     if list(dec) != list(dec0) or logits.shape != logits0.shape or float(np.abs(logits[:, :n] - logits0[:, :n]).max()) > TOL:
         d = float(np.abs(logits[:, :n] - logits0[:, :n]).max())
